@@ -22,7 +22,7 @@ def check(ctx):
     proved = ctx.prove("props/C15.v", ["proofs/PolyDomainFacts.v", "proofs/AlgebraSound.v"])
     ctx.build(["model/PolyDomain.vo", "base/Farkas.vo"])
     rng = random.Random(ctx.seed + 15)
-    n = (150 if ctx.quick else 3000) * (1 if proved else 3)
+    n = (150 if ctx.quick else 10000) * (1 if proved else 3)
     exprs, cases, jobs_keep, jobs_exact, seen = [], [], [], [], set()
     hist = {}
     for k in range(n):
